@@ -487,10 +487,15 @@ class DatasetProcessor:
         logger.info("Processing experiment " + sample.prefix)
         logger.info("Experiment has " + proper_plural_form("BAM file", len(sample.file_list)) + ": " + ", ".join(
             map(lambda x: x[0], sample.file_list)))
+        input_file_count = len(sample.file_list)
+        if self.args.read_assignments and getattr(self.args.input_data, "input_type", None) == "save":
+            # restart from saved assignments alone: the experiment had as many files as the run that saved them
+            saves_index = getattr(self, "current_sample_index", 0) if len(self.args.read_assignments) > 1 else 0
+            input_file_count = max(1, self.load_input_file_count(self.args.read_assignments[saves_index]))
         if getattr(self.args, "auto_read_group", False):
             # no --read_group was given: group by file name only when this experiment has several files
-            self.args.read_group = "file_name" if len(sample.file_list) > 1 else None
-        self.args.use_technical_replicas = self.args.read_group == "file_name" and len(sample.file_list) > 1
+            self.args.read_group = "file_name" if input_file_count > 1 else None
+        self.args.use_technical_replicas = self.args.read_group == "file_name" and input_file_count > 1
         # isoforms detected in the previous experiment must not affect this one
         GraphBasedModelConstructor.detected_known_isoforms = set()
         GraphBasedModelConstructor.extended_transcript_ids = set()
@@ -630,6 +635,7 @@ class DatasetProcessor:
         write_int(polya_assignments, info_dumper)
         write_list(list(all_read_groups), info_dumper, write_string)
         write_int(self.alignment_stat_counter.stats_dict[AlignmentType.unaligned], info_dumper)
+        write_int(len(sample.file_list), info_dumper)
         info_dumper.close()
         open(lock_file, "w").close()
 
@@ -777,6 +783,19 @@ class DatasetProcessor:
         all_read_groups = set(read_list(info_loader, read_string))
         info_loader.close()
         return total_assignments, polya_assignments, all_read_groups
+
+    def load_input_file_count(self, dump_filename):
+        # stored after the number of unaligned reads; 0 when the file was saved by an earlier version
+        if not os.path.exists(dump_filename + "_info"):
+            return 0
+        info_loader = open(dump_filename + "_info", "rb")
+        read_int(info_loader)
+        read_int(info_loader)
+        read_list(info_loader, read_string)
+        read_int(info_loader)
+        input_file_count = read_int(info_loader)
+        info_loader.close()
+        return input_file_count
 
     def load_unaligned_read_count(self, dump_filename):
         # stored after the read groups; absent in files saved by earlier versions (read_int gives 0 at EOF)
